@@ -1,6 +1,7 @@
 package main
 
 import (
+	"math/big"
 	"strconv"
 	"strings"
 
@@ -229,6 +230,84 @@ func c14(r *mon.Run) {
 				t.Sample(map[string]interface{}{"layer": "literal", "value": v, "spelling": expr})
 			}
 		}}
+	// number literals: every spelling denotes the float64 nearest to the written decimal (what encoding/json and
+	// strconv.ParseFloat give), whatever its length, wherever it stands; integers around the int32/int64/uint64 and
+	// 2^53 limits, powers of ten and digit runs of 1..30 digits, each plain, negated, with .0, with exponents
+	var numTexts []string
+	{
+		seen := map[string]bool{}
+		add := func(s string) {
+			for _, v := range []string{s, "-" + s, s + ".0", s + "e0", s + "E+0", s + ".5", s + "e-1", "-" + s + "e1"} {
+				if !seen[v] {
+					seen[v] = true
+					numTexts = append(numTexts, v)
+				}
+			}
+		}
+		for _, k := range []uint{7, 8, 15, 16, 24, 31, 32, 52, 53, 62, 63, 64} {
+			b := new(big.Int).Lsh(big.NewInt(1), k)
+			for d := int64(-2); d <= 2; d++ {
+				add(new(big.Int).Add(b, big.NewInt(d)).String())
+			}
+		}
+		for d := 1; d <= 30; d++ {
+			p := new(big.Int).Exp(big.NewInt(10), big.NewInt(int64(d)), nil)
+			add(p.String())
+			add(new(big.Int).Sub(p, big.NewInt(1)).String())
+			add(new(big.Int).Add(p, big.NewInt(1)).String())
+			add(strings.Repeat("5", d))
+			add("1" + strings.Repeat("0", d-1) + "7")
+		}
+		for _, s := range []string{"0", "1", "9223372036854775807", "9223372036854775808", "9999999999999999999", "18446744073709551615", "18446744073709551616", "123456789012345678901234567890",
+			"0.1", "0.000001", "0.0000001", "1.7976931348623157e308", "4.9e-324", "2.2250738585072014e-308", "1e308", "1e-320", "1e21", "1e22", "1e23", "123456789.123456789", "0.30000000000000004", "5e-324", "1e400", "1e-400"} {
+			add(s)
+		}
+	}
+	nctx := 6
+	numw := mon.Workload{Name: "number-literals", N: len(numTexts) * nctx,
+		Describe: func(i int) string { return numTexts[i/nctx] },
+		Do: func(i int, t *mon.Tally) {
+			text := numTexts[i/nctx]
+			f, perr := strconv.ParseFloat(text, 64)
+			var expr string
+			var want interface{} = f
+			switch i % nctx {
+			case 0:
+				expr = "`" + text + "`"
+			case 1:
+				expr, want = "`["+text+"]`", []interface{}{f}
+			case 2:
+				expr, want = "`{\"a\": "+text+"}`", map[string]interface{}{"a": f}
+			case 3:
+				expr = "` " + text + "\n`"
+			case 4:
+				expr, want = "[`"+text+"`, `1`]", []interface{}{f, float64(1)}
+			default:
+				expr, want = "`"+text+"` == `"+text+"`", true
+			}
+			t.Eval()
+			empty := map[string]interface{}{} // (a multi-select on a null document is null)
+			for k, o := range []mon.Observed{apiSearch(expr, empty), apiCompiledSearch(expr, empty)} {
+				api := []string{"Search", "Compile+Search"}[k]
+				if perr != nil { // out of the float64 range: not a number a JSON decoder accepts
+					if o.Panicked || o.Err == nil {
+						r.Violate(&mon.Violation{Workload: "number-literals", Index: i, API: api, Expr: expr, Expected: "an error: " + text + " is outside the float64 range", Observed: o.String(), Class: "number-literals: out-of-range literal accepted"})
+						return
+					}
+					continue
+				}
+				if o.Panicked || o.Err != nil || !ref.Match(want, o.V) {
+					r.Violate(&mon.Violation{Workload: "number-literals", Index: i, API: api, Expr: expr, Expected: ref.Canon(want) + " (the float64 nearest to the written decimal)", Observed: o.String(), Class: "number-literals: wrong value"})
+					return
+				}
+			}
+			if perr == nil {
+				t.Nontrivial("num:" + expr)
+				t.Count("number literal spellings denoting the nearest float64")
+			} else {
+				t.Count("out-of-range number literals rejected")
+			}
+		}}
 	// identifiers
 	other := []byte("-.@ [\x7f`{$/\x00\xc3")
 	var id3 []byte
@@ -423,5 +502,5 @@ func c14(r *mon.Run) {
 			t.Nontrivial("after:" + f + s1)
 		}}
 	_ = jmespath.Search
-	r.Exec(quoted, raw, lit, ident, wsw, pairs, after)
+	r.Exec(quoted, raw, lit, numw, ident, wsw, pairs, after)
 }
